@@ -1705,7 +1705,10 @@ theorem update_single (hf : HashFns) (t t' : Tree) (L : List Bytes) (hst : Store
   have hsort := sortIdx_single (2 ^ getHeight L.length + p) (by omega)
   have hfuel := sumBitLen_single (getHeight L.length) p hiH
   have hM : (L.set p (hf.leaf u)).length = L.length := List.length_set
-  unfold update at hu
+  rw [update_eq] at hu
+  split at hu
+  case isFalse => cases hu
+  unfold updateOrig at hu
   rw [hsize, if_neg (by omega)] at hu
   simp only at hu
   split at hu
@@ -3726,7 +3729,9 @@ theorem verify_calcSpec (hf : HashFns) (n : Nat) (hn : 1 ≤ n) (pos : List Nat)
     (hnd : pos.Nodup) (hlt : ∀ p ∈ pos, p < n) (hlen : q.length = pos.length) (hne : pos ≠ [])
     (hv : verifyProof hf q ⟨n, pos.map fun p => 2 ^ getHeight n + p, sibs⟩ root = true) :
     calcSpec hf n (getHeight n - 1) 0 (layer0 pos q) sibs = some root := by
-  unfold verifyProof at hv
+  rw [verifyProof_eq, Bool.and_eq_true] at hv
+  replace hv := hv.2
+  unfold verifyProofOrig at hv
   simp only [show ¬ n = 0 by omega, if_false] at hv
   rcases calcPathNodes_spec hf n hn pos q sibs hnd hlt hlen hne with hs | ⟨hnone, _⟩
   · cases hc : calcSpec hf n (getHeight n - 1) 0 (layer0 pos q) sibs with
@@ -3745,7 +3750,9 @@ theorem calcSpec_verify (hf : HashFns) (n : Nat) (hn : 1 ≤ n) (pos : List Nat)
     (hb : getHeight n ≤ 30)
     (hs : calcSpec hf n (getHeight n - 1) 0 (layer0 pos q) sibs = some root) :
     verifyProof hf q ⟨n, pos.map fun p => 2 ^ getHeight n + p, sibs⟩ root = true := by
-  unfold verifyProof
+  rw [verifyProof_eq, Bool.and_eq_true]
+  refine ⟨idxsValid_leaves hn hb pos hnd hlt, ?_⟩
+  unfold verifyProofOrig
   simp only [show ¬ n = 0 by omega, if_false]
   rcases calcPathNodes_spec hf n hn pos q sibs hnd hlt hlen hne with hc | ⟨_, h30⟩
   · rw [hs] at hc
@@ -4900,7 +4907,10 @@ theorem update_multi (hf : HashFns) (t t' : Tree) (L : List Bytes) (hst : Stored
     subst e
     have : upd = [] := List.eq_nil_of_length_eq_zero (by simpa using hlen.symm)
     subst this
-    unfold update at hu
+    rw [update_eq] at hu
+    split at hu
+    case isFalse => cases hu
+    unfold updateOrig at hu
     simp only [List.map_nil, calcPathNodes] at hu
     split at hu
     · cases hu
@@ -4957,7 +4967,10 @@ theorem update_multi (hf : HashFns) (t t' : Tree) (L : List Bytes) (hst : Stored
     intro e he
     simp only [id, Function.comp]
     rw [blk_leaf M e.1 e.2 (hMval e ((hmem e).1 he)), rootH_singleton]
-  unfold update at hu
+  rw [update_eq] at hu
+  split at hu
+  case isFalse => cases hu
+  unfold updateOrig at hu
   rw [hsize, if_neg (by omega)] at hu
   simp only at hu
   split at hu
